@@ -92,6 +92,13 @@ func c15(c *Ctx) {
 							good = true
 						}
 					}
+					// library form: slices.Concat(prefix, item) (a fresh slice holding both, in order)
+					if cc, ok := ret.Results[0].(*ssa.Call); ok && core.CalleeID(cc) == "slices.Concat" && len(cc.Call.Args) == 1 {
+						el := core.VariadicElems(cc.Call.Args[0])
+						if len(el) == 2 && el[0] == call.Value() && el[1] == item {
+							good = true
+						}
+					}
 				}
 				// or the streaming form: buf = append(buf, prefix...); buf = append(buf, item...) with
 				// nothing appended in between, and the buffer is what is returned
@@ -111,6 +118,43 @@ func c15(c *Ctx) {
 									good = true
 								}
 							}
+						}
+					}
+				}
+				// or the copying form: out := make([]byte, len(prefix)+len(item)); copy(out, prefix);
+				// copy(out[len(prefix):], item); return out
+				if !good {
+					for _, ret := range core.Returns(fn) {
+						if len(ret.Results) != 1 {
+							continue
+						}
+						mk, ok := core.Unwrap(ret.Results[0]).(*ssa.MakeSlice)
+						if !ok {
+							continue
+						}
+						sum, ok := mk.Len.(*ssa.BinOp)
+						if !ok || sum.Op != token.ADD {
+							continue
+						}
+						lenOf := func(v, of ssa.Value) bool { return core.IsLenOf(v, func(y ssa.Value) bool { return y == of }) }
+						if !((lenOf(sum.X, call.Value()) && lenOf(sum.Y, item)) || (lenOf(sum.Y, call.Value()) && lenOf(sum.X, item))) {
+							continue
+						}
+						head, tail := false, false
+						core.Calls(fn, func(ci ssa.CallInstruction) {
+							if core.CalleeID(ci) != "builtin.copy" {
+								return
+							}
+							a := ci.Common().Args
+							if a[0] == ssa.Value(mk) && a[1] == call.Value() {
+								head = true
+							}
+							if sl, ok := a[0].(*ssa.Slice); ok && sl.X == ssa.Value(mk) && sl.High == nil && lenOf(sl.Low, call.Value()) && a[1] == item {
+								tail = true
+							}
+						})
+						if head && tail {
+							good = true
 						}
 					}
 				}
